@@ -136,7 +136,7 @@ def fmtBehaviour (b : Behaviour) : String :=
       | _ => none
     if bs.isEmpty then none else some (toString k.val ++ "=" ++ tohex bs)
   let fs := if files.isEmpty then "-" else ";".intercalate files
-  s!"ok exit={natToHex b.exit.toNat} out={tohex out} in={b.stdinConsumed} files={fs} end={if b.returned then "return" else "exit"} calls={",".intercalate b.calls}"
+  s!"ok exit={natToHex b.exit.toNat} out={tohex out} in={b.stdinConsumed} files={fs} end={if b.returned then "return" else "exit"} calls={",".intercalate b.calls} ctree={",".intercalate b.callTree}"
 
 def handle (line : String) : String :=
   match line.splitOn "|" with
